@@ -2,6 +2,7 @@ package main
 
 import (
 	"fmt"
+	"strings"
 
 	"github.com/kyleconroy/sqlc/internal/codegen/golang"
 	"github.com/kyleconroy/sqlc/internal/compiler"
@@ -109,4 +110,30 @@ func opGoTypes(j Job) Res {
 	res["result"] = trim(pick("q.sql.go", "QRow"))
 	res["param"] = trim(pick("q.sql.go", "QParams"))
 	return res
+}
+
+func init() {
+	ops["config"] = opConfig
+}
+
+// config: {"text": s} -> {"packages":[{"overrides":[…], "rename":{…}}]} | {"err":…}
+func opConfig(j Job) Res {
+	conf, err := config.ParseConfig(strings.NewReader(str(j, "text")))
+	if err != nil {
+		return Res{"err": err.Error()}
+	}
+	pkgs := []interface{}{}
+	for _, s := range conf.SQL {
+		cs := config.Combine(conf, s)
+		ovs := []interface{}{}
+		for _, o := range cs.Overrides {
+			ovs = append(ovs, map[string]interface{}{
+				"go_type_name": o.GoTypeName, "column": o.Column, "column_name": o.ColumnName,
+				"catalog": o.Table.Catalog, "schema": o.Table.Schema, "rel": o.Table.Rel,
+				"db_type": o.DBType, "nullable": o.Nullable, "import": o.GoImportPath, "package": o.GoPackage, "basic": o.GoBasicType,
+			})
+		}
+		pkgs = append(pkgs, map[string]interface{}{"overrides": ovs, "rename": cs.Rename, "engine": string(s.Engine)})
+	}
+	return Res{"packages": pkgs}
 }
